@@ -74,7 +74,13 @@ Definition eligible (e : evrec) : bool :=
     negb (bool_decide (ts_id v = ts_id p)) &&
     bool_decide (ts_node v = ev_node e) && bool_decide (is_Some (ev_node e)) &&
     bool_decide (ev_victim e ∈ ev_order e) &&
-    match obs_of e (ev_victim e) with Some o => bool_decide (o_status o = ts_status v) | None => false end &&
+    (* the status the pod carried when it was handed to the vote: Running, or Bound for preemption - never a
+       status only the session knows (Allocated, Binding, Pipelined) nor Releasing *)
+    match obs_of e (ev_victim e) with
+    | Some o => bool_decide (o_status o = ts_status v) &&
+                (bool_decide (o_status o = Running) || ((ev_action e =? 1) && bool_decide (o_status o = Bound)))
+    | None => false
+    end &&
     match queue_of_task v, queue_of_task p with
     | Some qv, Some qp =>
       if ev_action e =? 1 then bool_decide (qv = qp)
